@@ -41,12 +41,25 @@ PROG_NAMES = ('wait1', 'waitwait', 'chain', 'gated', 'async2')
 class FaultyComm(kiwipy.LocalCommunicator):
     """In-process communicator that records state-change broadcasts and can fail the i-th one."""
 
-    def __init__(self, fail=None):
+    def __init__(self, fail=None, sub_fail=None):
         super().__init__()
         self.fail = fail
+        self.sub_fail = sub_fail  # 'rpc' | 'bcast': that subscription of the process times out (a slow broker)
         self.state_broadcasts = []  # (sender, subject)
         self.n_state = 0
         self.failed = []
+
+    def add_rpc_subscriber(self, subscriber, identifier=None):
+        if self.sub_fail == 'rpc':
+            self.sub_fail = None
+            raise kiwipy.TimeoutError('add_rpc_subscriber timed out')
+        return super().add_rpc_subscriber(subscriber, identifier)
+
+    def add_broadcast_subscriber(self, subscriber, identifier=None):
+        if self.sub_fail == 'bcast':
+            self.sub_fail = None
+            raise kiwipy.TimeoutError('add_broadcast_subscriber timed out')
+        return super().add_broadcast_subscriber(subscriber, identifier)
 
     def broadcast_send(self, body, sender=None, subject=None, correlation_id=None):
         if isinstance(subject, str) and subject.startswith('state_changed'):
@@ -82,6 +95,17 @@ def enumerate_cases(tier, scope):
                 for exc in FAULTS:
                     for index in range(1, 7):
                         yield {'program': cat[name], 'schedule': [['settle'], ['rpc', 'pause', 'p'], ['settle'], ['rpc', 'play', None], ['settle']], 'comm': comm, 'mode': 'quiescent', 'controller': 'thread', 'fail': {'index': index, 'exc': exc}}
+        # one of the two subscriptions of the process times out: the other channel keeps working
+        import itertools
+
+        for name in ('wait1', 'gated', 'waitwait'):
+            for comm in ('bare', 'loop'):
+                for sub_fail, chan in (('rpc', 'bcast'), ('bcast', 'rpc')):
+                    for msgs in itertools.product([m for m in MESSAGES if m[0] == chan], repeat=2):
+                        sched = [['settle']]
+                        for m in msgs:
+                            sched += [list(m), ['settle']]
+                        yield {'program': cat[name], 'schedule': sched, 'comm': comm, 'mode': 'quiescent', 'controller': 'thread', 'sub_fail': sub_fail}
     elif scope == 'instep2':
         for name in ('async2', 'chain', 'waitwait'):
             for comm in ('bare', 'loop'):
@@ -117,6 +141,14 @@ def _cases(draw, tier):
     case = {'program': prog, 'schedule': sched, 'comm': draw(st.sampled_from(['bare', 'loop'])), 'mode': mode, 'controller': draw(st.sampled_from(['thread', 'coro']))}
     if draw(st.integers(0, 3)) == 0:
         case['fail'] = {'index': draw(st.integers(1, 6)), 'exc': draw(st.sampled_from(list(FAULTS)))}
+    if mode == 'quiescent' and draw(st.integers(0, 4)) == 0:
+        case['sub_fail'] = draw(st.sampled_from(['rpc', 'bcast']))
+        chan = 'bcast' if case['sub_fail'] == 'rpc' else 'rpc'
+        for ev in sched:
+            if ev[0] in ('rpc', 'bcast') and ev[0] != chan:
+                ev[0] = chan
+                if chan == 'bcast' and ev[1] == 'status':
+                    ev[1] = 'pause'
     return case
 
 
@@ -165,7 +197,7 @@ class Side:
         self.ex.__enter__()
         loop = self.ex.loop
         if self.remote:
-            self.inner = FaultyComm(self.case.get('fail'))
+            self.inner = FaultyComm(self.case.get('fail'), self.case.get('sub_fail'))
             self.comm = communications.LoopCommunicator(self.inner, loop) if self.case['comm'] == 'loop' else self.inner
             self.ex.communicator = self.comm
             self.thread_ctl = process_comms.RemoteProcessThreadController(self.comm)
@@ -282,6 +314,8 @@ def execute(case):
     mode = case['mode']
     nontrivial = False
     classes = ['mode:' + mode, 'comm:' + case['comm'], 'ctl:' + case.get('controller', 'thread')]
+    if case.get('sub_fail'):
+        classes.append('subscription-timeout:' + case['sub_fail'])
     with Side(case, True) as a:
         if not a.started:
             return {'violations': [{'clause': 'construct', 'detail': repr(a.ex.construct_error)}], 'nontrivial': False, 'classes': classes}
